@@ -11,6 +11,14 @@ claimed = {
    text="Seeded search over schedules, network delays/fragmentation and (in a separate configuration) connection faults, with 1-3 real library clients x 1-4 concurrent callers against the real server in every mode (json, post-sse, stateless, sessions disabled, legacy SSE, stdio); oracle: each call returns once, a result is computed from the call's own nonce, the handler ran exactly once per nonce, fault-free runs have no failed or unanswered call. Sampling of interleavings, not enumeration.",
    note="Trusted: the simulator stubs for HTTP framing/pipes, the text instrumentation (neutrality-tested against the repository's suite), go1.26.8 synctest. Between yield points code is atomic.",
    tech=TECH+"nonce-correlation and exactly-once oracle"),
+ "C09": dict(cat="exploration", ref="DESIGN.md §6 C09",
+   text="Seeded search over interleavings of concurrent writers on one stream - stdio server stdout (responses of concurrent requests + server-issued roots/list through the outgoing pump), the legacy SSE stream (event queue, keep-alive ticks straddled by 29.9s/30.1s handlers), the Streamable GET stream (concurrent SendNotification tasks + roots/list) and the stdio client's stdin (requests vs error answers provoked by a scripted server) - with every Write a scheduler point and payloads around 4 KiB/64 KiB containing CR, LF, U+2028/2029. Oracle: the raw bytes are split by reference readers (WHATWG event-stream parser, strict newline splitter) and every frame must be exactly one valid JSON-RPC object, each answer/notification in exactly one frame.",
+   note="A single Write call is atomic per pipe end / ResponseWriter (one *os.File per end, write lock); HTTP chunking and TCP segmentation are not modelled (they do not reorder bytes).",
+   tech=TECH+"reference-parser oracle over captured byte streams"),
+ "C11": dict(cat="exploration", ref="DESIGN.md §6 C11",
+   text="Seeded search over open/close/reopen sequences of GET streams of one session by a raw reference peer, interleaved at every lock, channel and write point of the real handleGet with concurrent SendNotification calls. Oracle: a send that runs entirely while one stream owns the session (its headers were received, it was not closed, no open/close in flight) must succeed and be delivered exactly once on that stream's connection; after the dust settles a send succeeds iff a stream is open; an older stream is closed once a newer one exists.",
+   note="Ownership is judged from the peer's point of view using the simulator's global step order; delivery is read from the bytes written on each simulated connection.",
+   tech=TECH+"stream-ownership oracle with targeted schedules at handleGet's yield points"),
 }
 NA = {
  "C18": "pure relation between two translators (schema generator vs encoding/json) over types and values: no schedule, clock, fault or interleaving for a simulator to decide (DESIGN.md §7)",
